@@ -93,9 +93,11 @@ impl ser::Serialize for Duration {
             ) -> std::result::Result<S::Ok, S::Error> {
                 let mut s = serializer.serialize_struct(Duration::STRUCT_NAME, 2)?;
                 s.serialize_field(Duration::SECS_FIELD, &self.0.num_seconds())?;
+                // `subsec_nanos` is exact for every duration; going through `num_nanoseconds`
+                // drops the fraction of durations beyond +-2^63 ns, for which it is `None`.
                 s.serialize_field(
                     Duration::NANOS_FIELD,
-                    &(self.0.num_nanoseconds().unwrap_or(0) % 1_000_000_000),
+                    &i64::from(self.0.subsec_nanos()),
                 )?;
                 s.end()
             }
